@@ -35,6 +35,7 @@ import (
 	sifapp "github.com/Sifchain/sifnode/app"
 	clptypes "github.com/Sifchain/sifnode/x/clp/types"
 	ethbridgetypes "github.com/Sifchain/sifnode/x/ethbridge/types"
+	margintypes "github.com/Sifchain/sifnode/x/margin/types"
 	trtypes "github.com/Sifchain/sifnode/x/tokenregistry/types"
 	sdk "github.com/cosmos/cosmos-sdk/types"
 	banktypes "github.com/cosmos/cosmos-sdk/x/bank/types"
@@ -70,7 +71,10 @@ func sanitize(s string) string {
 }
 
 // Process environments of the worker re-executions.  Consensus results must not depend on any of it:
-// time zone, locale, CPU count, working directory, home / host / user names, temp directory.
+// time zone, locale, CPU count, working directory, home / host / user names, temp directory, and the CPU
+// features the Go runtime uses (GODEBUG=cpu.fma=off emulates a CPU without FMA3: math.Exp, math.FMA and other
+// assembly routines then take their portable path; cpu.all=off disables every optional feature).  Whether the
+// toggles had an effect on this host is recorded in stats.json (cpu_probe per execution).
 type envProfile struct {
 	name string
 	vars map[string]string
@@ -79,10 +83,10 @@ type envProfile struct {
 
 var envProfiles = []envProfile{
 	{name: "inherited"},
-	{name: "far", cwd: ".", vars: map[string]string{"TZ": "Pacific/Kiritimati", "VERIF_FIXED_ZONE_SECONDS": "50400", "GOMAXPROCS": "1", "LANG": "tr_TR.UTF-8", "LC_ALL": "tr_TR.UTF-8",
+	{name: "far", cwd: ".", vars: map[string]string{"GODEBUG": "cpu.fma=off", "TZ": "Pacific/Kiritimati", "VERIF_FIXED_ZONE_SECONDS": "50400", "GOMAXPROCS": "1", "LANG": "tr_TR.UTF-8", "LC_ALL": "tr_TR.UTF-8",
 		"LANGUAGE": "tr", "HOME": "/nonexistent/verif-home", "HOSTNAME": "verif-far-host", "USER": "nobody", "LOGNAME": "nobody", "TMPDIR": "."}},
 	{name: "utc", cwd: "/", vars: map[string]string{"TZ": "UTC", "GOMAXPROCS": "4", "LANG": "C", "LC_ALL": "C", "HOME": "/", "HOSTNAME": "verif-utc-host"}},
-	{name: "west", vars: map[string]string{"TZ": "America/Anchorage", "VERIF_FIXED_ZONE_SECONDS": "-32400", "GOMAXPROCS": "2", "LANG": "de_DE.ISO-8859-1", "LC_NUMERIC": "de_DE"}},
+	{name: "west", vars: map[string]string{"GODEBUG": "cpu.all=off", "TZ": "America/Anchorage", "VERIF_FIXED_ZONE_SECONDS": "-32400", "GOMAXPROCS": "2", "LANG": "de_DE.ISO-8859-1", "LC_NUMERIC": "de_DE"}},
 }
 
 func (e envProfile) apply(base []string, dir string) []string {
@@ -111,10 +115,14 @@ func (e envProfile) apply(base []string, dir string) []string {
 	return out
 }
 
+// cpuProbes: CPU probe of the parent and of every worker environment seen (evidence of which variation was real)
+var cpuProbes = map[string]string{}
+
 // runAll returns N executions of the history: the pilot's, then fresh in-process and worker-process ones.
 func runAll(spec *Spec, pilot Exec, N int, outDir string) ([]Exec, []string) {
 	execs := []Exec{pilot}
 	how := []string{"pilot"}
+	cpuProbes["parent"] = cpuProbe()
 	rest := N - 1
 	nProc := rest / 2
 	nIn := rest - nProc
@@ -136,6 +144,7 @@ func runAll(spec *Spec, pilot Exec, N int, outDir string) ([]Exec, []string) {
 	procRes := make([]Exec, nProc)
 	procMode := make([]int, nProc)
 	procEnv := make([]string, nProc)
+	procProbe := make([]string, nProc)
 	var wg sync.WaitGroup
 	sem := make(chan struct{}, 6)
 	for i := 0; i < nProc; i++ {
@@ -173,6 +182,7 @@ func runAll(spec *Spec, pilot Exec, N int, outDir string) ([]Exec, []string) {
 				return
 			}
 			procRes[i] = ex
+			procProbe[i] = ex.CPUProbe
 			os.RemoveAll(dir)
 		}(i)
 	}
@@ -197,6 +207,7 @@ func runAll(spec *Spec, pilot Exec, N int, outDir string) ([]Exec, []string) {
 	for i := range procRes {
 		execs = append(execs, procRes[i])
 		how = append(how, "process."+modeNames[procMode[i]]+".env="+procEnv[i])
+		cpuProbes["env="+procEnv[i]] = procProbe[i]
 	}
 	return execs, how
 }
@@ -220,7 +231,77 @@ func splitGas(o string) (string, string) {
 	return o[:i], o[i+1:]
 }
 
+// expKey: the part of a CPU probe that says how this process's math routines round ("" = same process as the parent)
+func expKey(probe string) string {
+	if i := strings.Index(probe, "exp="); i >= 0 {
+		return probe[i:]
+	}
+	return ""
+}
+
+// emitHistory: executions are grouped by the CPU behaviour of their process (probe of math.Exp: the parent's group
+// holds the pilot, the in-process executions and the workers whose CPU features were left alone; workers started
+// with GODEBUG=cpu.fma=off / cpu.all=off form other groups when the toggle has an effect on this host).  Within a
+// group everything is compared line by line under the ordinary tags.  ACROSS groups one line per history compares
+// the complete results (tag cpu-features.<history>): that comparison is what a CPU-dependent float routine breaks.
 func emitHistory(out *Out, spec *Spec, execs []Exec, how []string, tag string) {
+	parentKey := expKey(cpuProbes["parent"])
+	keyOf := func(k int) string {
+		if execs[k].CPUProbe == "" {
+			return parentKey
+		}
+		return expKey(execs[k].CPUProbe)
+	}
+	var keys []string
+	groups := map[string][]int{}
+	for k := range execs {
+		g := keyOf(k)
+		if _, ok := groups[g]; !ok {
+			keys = append(keys, g)
+		}
+		groups[g] = append(groups[g], k)
+	}
+	for _, g := range keys {
+		idx := groups[g]
+		if len(idx) < 2 {
+			continue // a single execution shows nothing by itself; it still takes part in the cross-group line
+		}
+		ge := make([]Exec, len(idx))
+		gh := make([]string, len(idx))
+		for i, k := range idx {
+			ge[i], gh[i] = execs[k], how[k]
+		}
+		emitGroup(out, spec, ge, gh, tag)
+	}
+	if len(keys) < 2 {
+		return
+	}
+	// across CPU behaviours: digest of everything the representative of each group produced, and where they first differ
+	digests := make([]string, len(keys))
+	first := "-"
+	ref := execs[groups[keys[0]][0]]
+	for i, g := range keys {
+		ex := execs[groups[g][0]]
+		b, _ := json.Marshal(ex.Blocks)
+		digests[i] = digest(b) + ":" + sanitize(g)
+		if i > 0 && first == "-" {
+			for bi := range spec.Blocks {
+				if bi >= len(ex.Blocks) || bi >= len(ref.Blocks) || ex.Blocks[bi].AppHash != ref.Blocks[bi].AppHash {
+					first = fmt.Sprintf("h%d:%s/%s", spec.Blocks[bi].Height, obsAt(&ref, bi, func(o *BlockObs) string { return o.AppHash })[:12], obsAt(&ex, bi, func(o *BlockObs) string { return o.AppHash })[:12])
+					break
+				}
+			}
+		}
+	}
+	// the digests carry the group's probe key after ':' for the reader; the judge compares the part before it
+	plain := make([]string, len(digests))
+	for i, d := range digests {
+		plain[i] = d[:strings.Index(d, ":")]
+	}
+	out.Emit(fmt.Sprintf("chk allEqual/cpu-features.%s tag=cpu-features.%s n=%d groups=%s first_apphash_difference=%s | %s", tag, tag, len(keys), sanitize(strings.Join(digests, ",")), first, strings.Join(plain, " ")), "true", "cpu", true)
+}
+
+func emitGroup(out *Out, spec *Spec, execs []Exec, how []string, tag string) {
 	N := len(execs)
 	var restarted, steady []int
 	for k := range execs {
@@ -255,7 +336,7 @@ func emitHistory(out *Out, spec *Spec, execs []Exec, how []string, tag string) {
 				})
 			}
 			stateless := ti < len(b.Stateless) && b.Stateless[ti]
-			if stateless && spec.IsRestart(bi) && len(restarted) > 0 && len(steady) > 1 {
+			if stateless && spec.IsRestart(bi) && len(restarted) > 0 && len(steady) > 0 {
 				// The position — a stateless-invalid transaction in the first block after a restart — is decided by the
 				// structure of the history, never by the outcome.  Everything except GasUsed must agree across ALL
 				// executions; GasUsed must agree among the executions that were not restarted and among those that
@@ -265,18 +346,20 @@ func emitHistory(out *Out, spec *Spec, execs []Exec, how []string, tag string) {
 				for k := range rs {
 					rest[k], gas[k] = splitGas(rs[k])
 				}
-				out.Emit(fmt.Sprintf("chk allEqual tag=txresult.%s n=%d h=%d i=%d kind=%s part=code:codespace:data:gaswanted | %s", tag, N, b.Height, ti, b.Labels[ti], strings.Join(rest, " ")), "true", "tx", true)
-				out.Emit(fmt.Sprintf("chk allEqual tag=txresult.%s n=%d h=%d i=%d kind=%s part=gasused.not-restarted | %s", tag, len(steady), b.Height, ti, b.Labels[ti], strings.Join(pick(gas, steady), " ")), "true", "tx", true)
-				if len(restarted) > 1 {
-					out.Emit(fmt.Sprintf("chk allEqual tag=txresult.%s n=%d h=%d i=%d kind=%s part=gasused.restarted | %s", tag, len(restarted), b.Height, ti, b.Labels[ti], strings.Join(pick(gas, restarted), " ")), "true", "tx", true)
+				out.Emit(fmt.Sprintf("chk allEqual/txresult.%s tag=txresult.%s n=%d h=%d i=%d kind=%s part=code:codespace:data:gaswanted | %s", tag, tag, N, b.Height, ti, b.Labels[ti], strings.Join(rest, " ")), "true", "tx", true)
+				if len(steady) > 1 {
+					out.Emit(fmt.Sprintf("chk allEqual/txresult.%s tag=txresult.%s n=%d h=%d i=%d kind=%s part=gasused.not-restarted | %s", tag, tag, len(steady), b.Height, ti, b.Labels[ti], strings.Join(pick(gas, steady), " ")), "true", "tx", true)
 				}
-				out.Emit(fmt.Sprintf("chk allEqual tag=txresult.restarted.validatebasic.gasused n=%d hist=%s h=%d i=%d kind=%s modes=%s | %s", N, tag, b.Height, ti, b.Labels[ti], sanitize(strings.Join(how, ",")), strings.Join(gas, " ")), "true", "tx.f25", true)
+				if len(restarted) > 1 {
+					out.Emit(fmt.Sprintf("chk allEqual/txresult.%s tag=txresult.%s n=%d h=%d i=%d kind=%s part=gasused.restarted | %s", tag, tag, len(restarted), b.Height, ti, b.Labels[ti], strings.Join(pick(gas, restarted), " ")), "true", "tx", true)
+				}
+				out.Emit(fmt.Sprintf("chk allEqual/txresult.restarted.validatebasic.gasused tag=txresult.restarted.validatebasic.gasused n=%d hist=%s h=%d i=%d kind=%s modes=%s | %s", N, tag, b.Height, ti, b.Labels[ti], sanitize(strings.Join(how, ",")), strings.Join(gas, " ")), "true", "tx.f25", true)
 				continue
 			}
-			out.Emit(fmt.Sprintf("chk allEqual tag=txresult.%s n=%d h=%d i=%d kind=%s | %s", tag, N, b.Height, ti, b.Labels[ti], strings.Join(rs, " ")), "true", "tx", true)
+			out.Emit(fmt.Sprintf("chk allEqual/txresult.%s tag=txresult.%s n=%d h=%d i=%d kind=%s | %s", tag, tag, N, b.Height, ti, b.Labels[ti], strings.Join(rs, " ")), "true", "tx", true)
 		}
-		out.Emit(fmt.Sprintf("chk allEqual tag=endblock.%s n=%d h=%d | %s", tag, N, b.Height, strings.Join(ends, " ")), "true", "endblock", false)
-		out.Emit(fmt.Sprintf("chk allEqual tag=apphash.%s n=%d h=%d ntx=%d | %s", tag, N, b.Height, len(b.Txs), strings.Join(hashes, " ")), "true", "block", true)
+		out.Emit(fmt.Sprintf("chk allEqual/endblock.%s tag=endblock.%s n=%d h=%d | %s", tag, tag, N, b.Height, strings.Join(ends, " ")), "true", "endblock", false)
+		out.Emit(fmt.Sprintf("chk allEqual/apphash.%s tag=apphash.%s n=%d h=%d ntx=%d | %s", tag, tag, N, b.Height, len(b.Txs), strings.Join(hashes, " ")), "true", "block", true)
 	}
 }
 
@@ -529,6 +612,67 @@ func poollessHistory(seed uint64, rng *Rng) *Pilot {
 	return p
 }
 
+// ---- history: margin-stress-queue ---------------------------------------------------------------
+// Margin-enabled pools kept at or below the removal-queue threshold (the administrator raises the threshold to 1
+// through MsgUpdateParams), so that the stress-queue term of the pool interest rate — the float code of
+// GetSQFromBlocks — is active in every margin epoch for about 45 blocks, with positions opened and swaps in between
+// so that many different (rate, blocks) arguments occur.
+
+func marginSQHistory(seed uint64, rng *Rng) *Pilot {
+	p := NewPilot("margin-stress-queue", seed, rng, GenesisOpts{NUsers: 6, ValPowers: []int64{10}, MarginPools: []string{"ceth", "cusdc", "cdai", "cwbtc", "clink"}, EpochSeconds: 3600}, 600)
+	adm := p.W.Admin
+	sqPools := []string{"ceth", "cusdc", "cdai", "cwbtc", "clink"}
+	for b := 0; b < 56; b++ {
+		p.Begin()
+		switch {
+		case b == 0:
+			for i, d := range sqPools {
+				p.CreatePool(p.W.Users[i], d)
+			}
+		case b == 1:
+			params := p.C.App.MarginKeeper.GetParams(p.C.Ctx())
+			np := params
+			np.RemovalQueueThreshold = sdk.OneDec()
+			np.EpochLength = 1
+			// small rates that follow the pools' liabilities from epoch to epoch, so that e^(-rate*blocks) stays well inside
+			// (0,1) and takes a different argument in every epoch of every pool
+			np.HealthGainFactor = sdk.NewDecWithPrec(int64(3000+p.R.Intn(6000)), 6)
+			np.InterestRateMin = sdk.NewDecWithPrec(int64(500+p.R.Intn(1500)), 6)
+			np.InterestRateMax = sdk.NewDecWithPrec(int64(30+p.R.Intn(40)), 3)
+			np.InterestRateIncrease = sdk.NewDecWithPrec(int64(1000+p.R.Intn(2000)), 6)
+			np.InterestRateDecrease = sdk.NewDecWithPrec(int64(1000+p.R.Intn(2000)), 6)
+			m := margintypes.MsgUpdateParams{Signer: adm.Addr.String(), Params: &np}
+			p.Tx("margin.updateparams.sq", adm, &m)
+			for _, d := range sqPools {
+				p.MarginOpen(d)
+			}
+		default:
+			ps := p.pools()
+			switch p.R.Intn(5) {
+			case 0, 1:
+				p.MarginOpen(sqPools[p.R.Intn(len(sqPools))])
+			case 2:
+				if len(ps) > 0 {
+					p.Swap(p.user(), ps, p.R.Chance(1, 4))
+				}
+			case 3:
+				p.MarginClose()
+			default:
+				if len(ps) > 0 {
+					p.AddLiquidity(p.user(), ps[p.R.Intn(len(ps))])
+				}
+			}
+		}
+		p.End()
+		if os.Getenv("VERIF_DEBUG_SQ") != "" {
+			for _, pl := range p.pools() {
+				fmt.Fprintf(os.Stderr, "SQDBG h=%d %s rate=%s health=%s sqbegin=%d\n", p.Height(), pl.ExternalAsset.Symbol, pl.InterestRate, pl.Health, p.C.App.MarginKeeper.GetSQBeginBlock(p.C.Ctx(), pl))
+			}
+		}
+	}
+	return p
+}
+
 // restartGasProbe attributes the extra BeginBlock gas of a restarted node: it replays the history up to the
 // first restart point on two chains, restarts one of them, and runs the two BeginBlockers that keep
 // process-local "already done" state on a context with a fresh infinite gas meter.
@@ -591,6 +735,7 @@ func init() {
 			func() (*Pilot, string) { return dewhitelistHistory(seed, rng), "oracle-dewhitelist-tie" },
 			func() (*Pilot, string) { return restartVBHistory(seed, rng), "restart-validatebasic" },
 			func() (*Pilot, string) { return poollessHistory(seed, rng), "poolless-prefix" },
+			func() (*Pilot, string) { return marginSQHistory(seed, rng), "margin-stress-queue" },
 			func() (*Pilot, string) { return ghostHistory(seed, rng, false), "genesis-lps-without-accounts.lppd" },
 			func() (*Pilot, string) { return ghostHistory(seed, rng, true), "genesis-lps-without-accounts.epoch" },
 		} {
@@ -614,6 +759,7 @@ func init() {
 		out.Extra["tx_result_hist"] = hist
 		out.Extra["histories"] = info
 		out.Extra["executions_per_history"] = N
+		out.Extra["cpu_probe"] = cpuProbes
 	}
 }
 
